@@ -286,6 +286,11 @@ def run_symbolic(h, mods, cfg, timeout_ms=20000, max_paths=64, label=""):
         names = sorted(env.doms)
         # reachability twin: assumptions + path + atom definitions must be satisfiable
         vr, dtr, _, _ = solve(list(ex.assume) + list(ex.low.side) + ex.path_constraints(), timeout_ms)
+        if vr == "unknown":
+            low2 = _relaxed(ex, [])
+            vr2, dtr2, _, _ = solve(list(ex.assume) + list(low2.side) + ex.path_constraints(), timeout_ms)
+            dtr += dtr2
+            vr = "sat" if vr2 == "sat" else vr2 if vr2 == "unsat" else "unknown"
         t_solver += dtr
         recs.append(Record(kind="reach", name=label + "/reach", path=pid, verdict=vr, t=dtr))
         for ob in env.obls:
